@@ -183,6 +183,11 @@ func c16serve(conn net.Conn, header, reply string, posts int, nostream, accept b
 	}
 	sig()
 	if !accept {
+		if strings.Contains(reply, "<!--open-->") {
+			// a server that sends something else than a handshake and leaves the stream open: the component has its
+			// answer all the same (an error) - it does not wait for more
+			time.Sleep(1500 * time.Millisecond)
+		}
 		return // not a handshake: everything was sent, close the connection
 	}
 	select {
@@ -276,7 +281,9 @@ func c16connect(op []string) string {
 		mu.Unlock()
 		return nil
 	})
+	t0 := time.Now()
 	cerr := c.Connect()
+	late := strings.Contains(reply, "<!--open-->") && time.Since(t0) > 900*time.Millisecond
 	<-sent // the server has written its reply and everything after it (or gave up)
 
 	if cerr == nil {
@@ -302,6 +309,13 @@ func c16connect(op []string) string {
 	<-served
 	time.Sleep(120 * time.Millisecond)
 	obs := snapshot(got, cerr)
+	if late {
+		// Connect returned only when the server gave up, not when its reply had arrived
+		if f := strings.Split(obs, " "); len(f) == 5 {
+			f[2] = "late"
+			obs = strings.Join(f, " ")
+		}
+	}
 	if t := xmpp.VerifComponentTransport(c); t != nil {
 		go t.Close() // waits ConnectTimeout for a stream close that never comes; not awaited
 	}
@@ -559,6 +573,8 @@ func c16replies() []c16reply {
 		{"decodeError", ""},
 		{"decodeError", "<<"},
 		{"decodeError", "<unknown xmlns='urn:example'/>"},
+		{"decodeError", "<!--open--><notice xmlns='urn:example:maintenance'>back at three</notice>"},
+		{"other", "<!--open--><message from='a@b' to='comp.localhost'><body>x</body></message>"},
 		{"decodeError", "<handshake xmlns='jabber:client'/>"},
 		{"decodeError", "<handshake><unclosed></handshake>"},
 		{"decodeError", "<handshake"},
